@@ -165,6 +165,64 @@ fn judge(cmd: &str, seq: &str, o: &Obs) -> Result<String, (String, String)> {
     }
 }
 
+//------------ what a run with several failures reports ----------------------
+
+/// One initial (store-only) run on two validation threads in which one
+/// trust anchor fails fatally (its stored certificate cannot be read: a
+/// directory sits in its place) and the other retryably (nothing stored
+/// for it yet). Which failure is recorded first is fixed by the length of
+/// the TAL's URI list: the later one has to look up 20000 URIs that are
+/// not in the store before it gets to its failure. Whatever the order,
+/// the run is a fatal failure - which no command retries.
+fn mixed_failures(scratch: &Path, idx: usize, fatal_first: bool) -> Result<String, (String, String)> {
+    use std::str::FromStr;
+    use crate::etree::{self, Case};
+    use crate::rpkigen::{Builder, CaSpec, Gen, ObjSpec, Stale, TalSpec, TreeSpec};
+    let gen = Gen::load();
+    let host = |n: &str| format!("{n}{idx}.c32.example");
+    let mk = |name: &str, key: usize, n: &str| {
+        let mut ta = CaSpec::new(name, key, &host(n), "repo");
+        ta.v4 = vec![(std::net::Ipv4Addr::new(10, key as u8, 0, 0), 16)];
+        ta.asns = vec![(64496 + key as u32, 64496 + key as u32)];
+        ta.objs = vec![ObjSpec::roa("r", 64496 + key as u32, &format!("10.{key}.0.0"), 16, 16)];
+        TalSpec { name: n.into(), ta_uri: format!("rsync://{}/repo/{name}.cer", host(n)), ca: ta, wrong_key: false, https_uri: None }
+    };
+    let spec = TreeSpec { tals: vec![mk("taf", 0, "fatal"), mk("tar", 1, "retry")] };
+    let image = Builder::new(&gen, Stale::Reject).build(&spec);
+    let case = Case::new(scratch.join(format!("mixed-{idx}")));
+    case.write_tals(&image);
+    case.publish(&image);
+    let mut config = case.config();
+    config.validation_threads = 2;
+    let err = |e: String| ("harness".to_string(), e);
+    // store both, then: the fatal TAL's certificate becomes unreadable,
+    // the retry TAL's certificate disappears from the store
+    etree::run(&config, false, &routinator::slurm::LocalExceptions::empty()).map_err(|e| err(format!("filling run: {e}")))?;
+    let store = routinator::store::Store::new(&config).map_err(|_| err("store".into()))?;
+    let path_of = |t: &TalSpec| store.verif_ta_path(&rpki::repository::tal::TalUri::Rsync(rpki::uri::Rsync::from_str(&t.ta_uri).unwrap()));
+    let fatal_path = path_of(&spec.tals[0]);
+    fs::remove_file(&fatal_path).map_err(|e| err(e.to_string()))?;
+    fs::create_dir_all(&fatal_path).map_err(|e| err(e.to_string()))?;
+    fs::remove_file(path_of(&spec.tals[1])).map_err(|e| err(e.to_string()))?;
+    // the TAL that is to fail second first names 20000 URIs nothing is stored for
+    let late = if fatal_first { "retry" } else { "fatal" };
+    for (name, text) in &image.tals {
+        if name != late { continue }
+        let mut lines: Vec<String> = (0..20000).map(|i| format!("rsync://{}/absent/{i}.cer", host("nowhere"))).collect();
+        lines.extend(text.lines().map(String::from));
+        fs::write(case.dir.join("tals").join(format!("{name}.tal")), lines.join("\n") + "\n").map_err(|e| err(e.to_string()))?;
+    }
+    let res = etree::run_initial(&config);
+    let _ = fs::remove_dir_all(&case.dir);
+    match res {
+        Err(e) if e.contains("fatal=true") => Ok(format!("mixed:{}:fatal", if fatal_first { "fatal-first" } else { "retryable-first" })),
+        Err(e) => Err(("fatal-run-reported-retryable".into(), format!(
+            "an initial run in which one trust anchor failed fatally and ({}) another one retryably was reported as: {e}", if fatal_first { "after it" } else { "before it" }
+        ))),
+        Ok(_) => Err(("harness".into(), "the damaged run succeeded".into())),
+    }
+}
+
 pub fn run(ctx: &Ctx) -> Report {
     util::quiet_panics();
     let mut rep = Report::new("fault_enumeration");
@@ -188,7 +246,11 @@ pub fn run(ctx: &Ctx) -> Report {
         retryable first, exit 0 iff the last performed run succeeded, and \
         terminate; the server stops at a fatal failure and at the second \
         retryable failure of a regular run at the latest, never with \
-        status 0; non-trivial = sequences with at least one failure");
+        status 0; in addition, in-process on the real engine with two \
+        validation threads: one initial run in which one trust anchor \
+        fails fatally and another retryably, in either order (the later \
+        one held back by 20000 URIs that are not in the store) - the run \
+        must be reported as a fatal failure; non-trivial = sequences with at least one failure");
     rep.bound = format!("{} one-shot command variants x {} outcome sequences (length <= {max_len}) + server x {} sequences (length <= {})", CMDS.len() - 1, seqs.len(), server_seqs.len(), max_len + 1);
     let threads = 16;
     let res = util::par_map(cases.len() as u64, threads, |i| {
@@ -216,6 +278,18 @@ pub fn run(ctx: &Ctx) -> Report {
             }
         }
     }
+    for (i, fatal_first) in [true, false].into_iter().enumerate() {
+        rep.evaluations += 1;
+        rep.nontrivial += 1;
+        match util::catch(|| mixed_failures(&ctx.scratch, i, fatal_first)).unwrap_or_else(|p| Err(("panic".into(), p))) {
+            Ok(k) => rep.outcome(k),
+            Err((class, msg)) if class == "harness" => { eprintln!("machinery error: {msg}"); std::process::exit(2) }
+            Err((class, msg)) => {
+                rep.outcome(format!("VIOLATION:{class}"));
+                rep.violation(format!("retry:run:{class}"), msg, json!({"mixed": fatal_first}));
+            }
+        }
+    }
     rep.sample(json!({"cmd": "vrps", "outcomes": "rr", "meaning": "first run fails retryably, the retry fails retryably again"}));
     rep.sample(json!({"cmd": "server", "outcomes": "oror", "meaning": "initial run ok, regular run fails retryably, retry ok, next regular run fails retryably"}));
     rep.assumptions.push("run outcomes are forced at the start of ValidationReport::process by the cfg-only hook (environment variable); TAL-less configuration, collectors disabled, refresh 1 s".into());
@@ -224,6 +298,14 @@ pub fn run(ctx: &Ctx) -> Report {
 
 pub fn replay(ctx: &Ctx, v: &Value) -> Report {
     let mut rep = Report::new("fault_enumeration");
+    if let Some(fatal_first) = v["mixed"].as_bool() {
+        let r = mixed_failures(&ctx.scratch, 9, fatal_first);
+        println!("mixed failures, fatal first = {fatal_first}: {r:?}");
+        if let Err((class, msg)) = r { rep.violation(format!("retry:run:{class}"), msg, v.clone()); }
+        rep.evaluations = 1; rep.nontrivial = 2;
+        rep.sample(v.clone());
+        return rep
+    }
     let cmd = v["cmd"].as_str().unwrap_or("vrps").to_string();
     let seq = v["outcomes"].as_str().unwrap_or("").to_string();
     let cmd_s: &str = CMDS.iter().find(|c| **c == cmd).copied().unwrap_or("vrps");
